@@ -290,6 +290,64 @@ func runC14(c *run.Ctx) {
 				accepted = append(accepted, t)
 			}
 		}
+		// truncation / splice layer: every prefix and every suffix of every accepted token, alone and after an accepted
+		// token (unterminated function notation, half a number, a lone quote: where index arithmetic and re-joining
+		// loops go wrong)
+		for ti, t := range accepted {
+			if ti >= 80 || len(t) > 40 || !c.Own([]byte("c14trunc"), []byte(prop+"|"+t)) {
+				continue
+			}
+			var cands []string
+			for k := 1; k < len(t); k++ {
+				cands = append(cands, t[:k], t[k:], accepted[0]+" "+t[:k], "1px 1px "+t[:k], t[:k]+","+t[:k])
+			}
+			for _, v := range cands {
+				c.Trace(func() string { return "handler " + prop + "\n" + run.Q(v) })
+				_, ab, pm := underBudget(budgetFor(len(v)), func() { h(v) })
+				c.Eval()
+				c.States++
+				c.Transitions++
+				c.Traces++
+				if pm != "" {
+					c.Violate("panic|handler|"+prop, fmt.Sprintf("default handler for %s panicked on %s: %s", prop, run.Q(v), pm), mkC14("handler", spec.Spec{}, prop, v))
+					break
+				}
+				if ab {
+					c.Violate("slow|handler|"+prop, fmt.Sprintf("default handler for %s exceeded the step budget %d on the %d-byte value %s", prop, budgetFor(len(v)), len(v), run.Q(v)), mkC14("handler", spec.Spec{}, prop, v))
+					c.Outcome("violation|slow-handler")
+					break
+				}
+				c.Outcome("handler-within-budget")
+			}
+		}
+		// ... and every prefix of every function-notation token of the whole pool (accepted by this handler or not)
+		// after an accepted beginning: an unterminated "rgb(0,0" where a colour may follow
+		if len(accepted) > 0 && c.Own([]byte("c14fn"), []byte(prop)) {
+			nfn := 0
+			for _, pt := range pool {
+				if !strings.Contains(pt, "(") || len(pt) > 32 || nfn >= 60 {
+					continue
+				}
+				nfn++
+				for k := 1; k <= len(pt); k++ {
+					for _, v := range []string{pt[:k], accepted[0] + " " + pt[:k], "1px 1px " + pt[:k], "1px 1px " + pt[:k] + ", 1px 1px"} {
+						_, ab, pm := underBudget(budgetFor(len(v)), func() { h(v) })
+						c.Eval()
+						c.States++
+						c.Transitions++
+						c.Traces++
+						if pm != "" {
+							c.Violate("panic|handler|"+prop, fmt.Sprintf("default handler for %s panicked on %s: %s", prop, run.Q(v), pm), mkC14("handler", spec.Spec{}, prop, v))
+						} else if ab {
+							c.Violate("slow|handler|"+prop, fmt.Sprintf("default handler for %s exceeded the step budget %d on the %d-byte value %s", prop, budgetFor(len(v)), len(v), run.Q(v)), mkC14("handler", spec.Spec{}, prop, v))
+							c.Outcome("violation|slow-handler")
+						} else {
+							c.Outcome("handler-within-budget")
+						}
+					}
+				}
+			}
+		}
 		toks := subPool(accepted, 12)
 		for _, t := range toks {
 			for _, sep := range []string{" ", ",", "/", " / "} {
